@@ -24,6 +24,9 @@ def main():
         mod.run(run, run.tier)
     except Exception:
         run.crashed = traceback.format_exc()
+    if os.environ.get("VF_RECORD_KEEPS"):
+        from . import pyvc
+        pyvc.dump_recorded_keeps()
     rc = run.finish(relock=a.relock)
     sys.exit(rc)
 
